@@ -16,6 +16,7 @@ import threading
 
 import fiddle as fdl
 from fiddle._src import building
+from fiddle._src import daglish
 from fiddle._src import history
 from fiddle._src import signatures
 from fiddle._src.experimental import serialization
@@ -124,10 +125,13 @@ class LoggingCounter:
 
 
 def install(log):
-  orig = {"counter": history._set_counter, "set_tracking": history.set_tracking,  # pylint: disable=protected-access
+  # the sequence counter is instrumented where the model expects it; if the source no longer has it, the
+  # event stream simply lacks "seq" events (the tie then fails) while the oracle still runs on the histories
+  orig = {"counter": getattr(history, "_set_counter", None), "set_tracking": history.set_tracking,  # pylint: disable=protected-access
           "in_build": building._in_build, "add_new": history.History.add_new_value,  # pylint: disable=protected-access
           "add_del": history.History.add_deleted_value, "add_tags": history.History.add_updated_tags}
-  history._set_counter = LoggingCounter(orig["counter"], log)  # pylint: disable=protected-access
+  if orig["counter"] is not None:
+    history._set_counter = LoggingCounter(orig["counter"], log)  # pylint: disable=protected-access
 
   def set_tracking(enabled):
     log.events.append((log.tid(), "tracking", bool(enabled)))
@@ -166,7 +170,8 @@ def install(log):
 
 
 def uninstall(orig):
-  history._set_counter = orig["counter"]  # pylint: disable=protected-access
+  if orig["counter"] is not None:
+    history._set_counter = orig["counter"]  # pylint: disable=protected-access
   history.set_tracking = orig["set_tracking"]
   building._in_build = orig["in_build"]  # pylint: disable=protected-access
   history.History.add_new_value = orig["add_new"]
@@ -218,6 +223,22 @@ def prog_edit(shared):
   return run
 
 
+def prog_long_suspend(shared):
+  """A long stretch of edits inside suspend_tracking: other threads start and finish meanwhile."""
+  def run(idx):
+    cfg = fdl.Config(l2.fg, idx)
+    with history.suspend_tracking():
+      for j in range(8):
+        cfg.v = j
+        cfg.w = [j]
+    cfg.v = 100
+    seqs = [e.sequence_id for es in cfg.__argument_history__.values() for e in es]
+    per_key = {k: [e.sequence_id for e in es] for k, es in cfg.__argument_history__.items()}
+    shape = {k: len(v) for k, v in per_key.items()}
+    return ("edit", canon(cfg), shape, history.tracking_enabled(), seqs, per_key)
+  return run
+
+
 def prog_copy(shared):
   def run(idx):
     cfg = fdl.Config(l2.fb, idx, [idx], k=fdl.Config(l2.Ka, p={"a": idx}))
@@ -262,7 +283,8 @@ def prog_fail(shared):
   return run
 
 
-PROGRAMS = [prog_build, prog_edit, prog_copy, prog_dump, prog_sig, prog_fail]
+PROGRAMS = [prog_build, prog_edit, prog_edit, prog_long_suspend, prog_long_suspend, prog_copy, prog_dump, prog_sig,
+            prog_fail]
 
 
 def strip_volatile(result):
@@ -296,35 +318,63 @@ def g_events(events):
   return "(mkcase 0%nat " + g_list(out) + ")"
 
 
+UNLOGGED = [0]
+
+
+def observed(prog_run, delay):
+  """Wraps a thread program: `delay` scheduling points inside Fiddle before its first contact with the
+  history machinery (so that it may start while another thread is inside suspend_tracking), and a probe
+  after it: a fresh configuration edited once must have its history recorded, tracking must be on."""
+  def run(idx):
+    for _ in range(delay):
+      daglish.is_memoizable(idx)
+    r = prog_run(idx)
+    probe = fdl.Config(l2.fa, idx)
+    probe.b = 1
+    post = (history.tracking_enabled(), tuple(sorted((str(k), len(v)) for k, v in probe.__argument_history__.items())))
+    return ("wrapped", r, post)
+  return run
+
+
 def one_schedule(rng, res, stream, label, n_threads):
   shared = make_shared_fn()
   progs = [rng.choice(PROGRAMS) for _ in range(n_threads)]
   # sequential reference: each program alone (fresh shared function so caches start cold)
   seq_results = []
+  seq_post = []
   for i, p in enumerate(progs):
-    seq_results.append(strip_volatile(p(make_shared_fn())(i)))
+    w = observed(p(make_shared_fn()), 0)(i)
+    seq_results.append(strip_volatile(w[1]))
+    seq_post.append(w[2])
+  delays = [rng.choice([0, 0, 3, 10, 25]) for _ in progs]
   sched_ref = [None]
   log = EventLog(sched_ref)
   orig = install(log)
   try:
-    sched = Scheduler(random.Random(rng.random()), [p(shared) for p in progs],
+    sched = Scheduler(random.Random(rng.random()), [observed(p(shared), d) for p, d in zip(progs, delays)],
                       switch_prob=rng.choice([0.05, 0.2, 0.5, 0.9]))
     sched_ref[0] = sched
-    results, errors = sched.run()
+    wrapped, errors = sched.run()
   finally:
     uninstall(orig)
+  results = [w[1] if w else None for w in wrapped]
+  posts = [w[2] if w else None for w in wrapped]
   res.evaluations += 1
   res.count("threads:" + str(n_threads))
   for p in progs:
     res.count("prog:" + p.__name__)
   res.count("scheduling-points", sched.steps)
-  replay = {"label": label, "programs": [p.__name__ for p in progs], "steps": sched.steps}
+  replay = {"label": label, "programs": [p.__name__ for p in progs], "delays": delays, "steps": sched.steps}
   res.nontrivial({"p": replay["programs"], "s": hash(tuple((e[0], e[1]) for e in log.events))})
   for i in range(n_threads):
     if errors[i] is not None:
       res.failures.append(Failure(None, f"C19 {label}: thread {i} ({progs[i].__name__}) raised "
                                   f"{type(errors[i]).__name__}: {errors[i]}", replay))
       continue
+    if posts[i] != seq_post[i]:
+      res.failures.append(Failure(None, f"C19 {label}: after thread {i} ({progs[i].__name__}) finished, a fresh "
+                                  f"configuration's history / the tracking flag is {posts[i]!r}; running alone: "
+                                  f"{seq_post[i]!r}", replay))
     got = strip_volatile(results[i])
     want = seq_results[i]
     if progs[i] is prog_sig:
@@ -344,6 +394,10 @@ def one_schedule(rng, res, stream, label, n_threads):
           res.failures.append(Failure(None, f"C19 {label}: history of {k!r} not increasing in thread {i}", replay))
   if len(set(all_seqs)) != len(all_seqs):
     res.failures.append(Failure(None, f"C19 {label}: sequence numbers collide across threads", replay))
+  # completeness of the event stream: every sequence id found in a history was handed out by the
+  # instrumented counter (otherwise the model no longer sees where ids come from)
+  logged = {e[2] for e in log.events if e[1] == "seq" and e[2] is not None}
+  UNLOGGED[0] += len([v for v in all_seqs if v not in logged])
   if building._state.in_build or not history.tracking_enabled():  # pylint: disable=protected-access
     res.failures.append(Failure(None, f"C19 {label}: main thread's flags were disturbed", replay))
   stream.add(g_events(log.events), meta=replay)
@@ -354,14 +408,18 @@ def one_schedule(rng, res, stream, label, n_threads):
 def run(tier: str, seed: int) -> Result:
   rng = random.Random(seed * 275604541 + 19)
   res = Result()
-  res.rule = ("2-3 real threads, each running one of 6 programs (build with nested-build probe, edits inside and "
-              "outside nested suspend_tracking, deepcopy + ==, dump_json/load_json, first-time signature lookup of a "
+  res.rule = ("2-3 real threads, each running one of 7 programs (build with nested-build probe, edits inside and "
+              "outside nested suspend_tracking, a long suspended stretch, deepcopy + ==, dump_json/load_json, first-time signature lookup of a "
               "shared callable, failing build) on its own configuration, under seeded schedules that switch thread "
               "at source-line granularity inside Fiddle; distinct by (programs, interleaving of logged state events)")
   stream = Stream("c19_events", "From Fiddle Require Import Threads C19Check.", "C19Check.case",
                   "C19Check.check_case")
   res.streams.append(stream)
-  n = 80 if tier == "quick" else 4000
+  n = 160 if tier == "quick" else 4000
+  UNLOGGED[0] = 0
   for i in range(n):
     one_schedule(rng, res, stream, f"sched#{i}", rng.choice([2, 2, 3]))
+  if UNLOGGED[0]:
+    raise RuntimeError(f"tie broken: {UNLOGGED[0]} history sequence ids were not handed out by history._set_counter "
+                       "(the counter the model instruments is gone or bypassed)")
   return res
